@@ -19,7 +19,7 @@ man = {
     "engines": [
         {"name": "lean-model", "path": "lean/", "serves_properties": sorted(PROPS), "kind_free_text": "hand-written executable Lean 4 model + spec + property theorems (lake lib Ldap3V) and a compiled line-protocol driver"},
         {"name": "harness", "path": "harness/", "serves_properties": sorted(PROPS), "kind_free_text": "Rust crate with a path dependency on /repo (--cfg ldap3_verif): runs the real code on generated inputs/scripts, prints canonical observations; property oracles"},
-        {"name": "translators", "path": "translate/", "serves_properties": ["C01", "C02", "C03", "C08", "C09", "C10", "C14", "C19"], "kind_free_text": "regenerate parts of the Lean model from /repo's current source on every run (sync delegation table, OIDs, byte predicates / result-code helpers / Unescaper::feed, the nesting-guard loop, request builders' APPLICATION tags, the driver's search-response classification); the theorems over the regenerated definitions are re-checked; a construct outside a translator's fragment fails closed"},
+        {"name": "translators", "path": "translate/", "serves_properties": ["C01", "C02", "C03", "C08", "C09", "C10", "C14", "C19"], "kind_free_text": "regenerate parts of the Lean model from /repo's current source on every run (sync delegation table, OIDs, byte predicates / result-code helpers / Unescaper::feed, the nesting-guard loop, request builders' APPLICATION tags, the driver's search-response classification, the roles of a result's optional components); the theorems over the regenerated definitions are re-checked; a construct outside a translator's fragment fails closed"},
         {"name": "check", "path": "check", "serves_properties": sorted(PROPS), "kind_free_text": "decision procedure: lake build + axiom audit + correspondence diff + oracle; writes evidence and replays"},
     ],
     "checks": [],
